@@ -33,7 +33,8 @@ def run(chk, repo: Repo):
                        "nearly equal samples must still be mapped column by column)", floor=1)
     from ..tolerant import tolerant_shortcut_rule
     tolerant_shortcut_rule(chk, repo, "C12-R6", ("cuqi/model/",))
-    chk.rule("C12-R2", "_2fun/_2par: convert only when not already in the target representation; CUQIarray with equal geometry uses its own conversion", floor=2)
+    chk.rule("C12-R2", "_2fun/_2par: convert only when not already in the target representation; CUQIarray with equal geometry uses its own conversion; "
+                       "Geometry.__eq__ answers False for an object of another class", floor=2)
     chk.rule("C12-R3", "gradient: wrt/direction conversions and vector-Jacobian orientation; capability tests (hasattr) are static: no geometry / model class "
                        "forwards unknown attributes dynamically", floor=4)
     from ..dynattr import dynamic_attribute_rule
